@@ -224,6 +224,60 @@ func (m *Map) Delete(key interface{}) {
 	})
 }
 
+func (m *Map) LoadAndDelete(key interface{}) (value interface{}, loaded bool) {
+	m.op("Map.LoadAndDelete", func(v uint64) uint64 {
+		if old, ok := m.m[key]; ok {
+			value, loaded = old, true
+			v ^= hv(key, old)
+			delete(m.m, key)
+		}
+		return v
+	})
+	return
+}
+
+func (m *Map) Swap(key, value interface{}) (previous interface{}, loaded bool) {
+	m.op("Map.Swap", func(v uint64) uint64 {
+		if old, ok := m.m[key]; ok {
+			previous, loaded = old, true
+			v ^= hv(key, old)
+		}
+		m.m[key] = value
+		return v ^ hv(key, value)
+	})
+	return
+}
+
+func (m *Map) CompareAndSwap(key, old, new interface{}) (swapped bool) {
+	m.op("Map.CompareAndSwap", func(v uint64) uint64 {
+		if cur, ok := m.m[key]; ok && cur == old {
+			m.m[key] = new
+			swapped = true
+			return v ^ hv(key, cur) ^ hv(key, new)
+		}
+		return v
+	})
+	return
+}
+
+func (m *Map) CompareAndDelete(key, old interface{}) (deleted bool) {
+	m.op("Map.CompareAndDelete", func(v uint64) uint64 {
+		if cur, ok := m.m[key]; ok && cur == old {
+			delete(m.m, key)
+			deleted = true
+			return v ^ hv(key, cur)
+		}
+		return v
+	})
+	return
+}
+
+// OnceFunc mirrors sync.OnceFunc.
+func OnceFunc(f func()) func() {
+	var o Once
+	return func() { o.Do(f) }
+}
+
 // Range snapshots the keys (sorted by printed form: map order is owned) at one scheduling point
 // and calls f for each entry still present.
 func (m *Map) Range(f func(key, value interface{}) bool) {
